@@ -95,7 +95,34 @@ POLICY = {
 OPTIONAL_POLICY = {"policy::vmspace::VMSpace::trace_object": (r"test_and_mark", True, "same")}
 
 
+class _RemsetView:
+    """Runs the remembered-set rules of C05 as instances of C01.remembered-set: in a generational plan an old-to-young reference that is
+    not remembered means a reachable nursery object is not traced, i.e. the object graph is not preserved (three independent seeded
+    changes against C01 broke exactly that). Keys are prefixed, so known findings stay property-specific."""
+
+    def __init__(self, ctx):
+        self._c = ctx
+
+    def judge(self, cond, rule, subject, expected="", found="", detail="", where="", key=None):
+        return self._c.judge(cond, "C01.remembered-set", "[%s] %s" % (rule, subject), expected, found, detail, where, key="C01.remembered-set|" + (key or "%s|%s" % (rule, subject)))
+
+    def bad(self, rule, subject, expected, found, where="", key=None, config=None):
+        return self._c.bad("C01.remembered-set", "[%s] %s" % (rule, subject), expected, found, where, "C01.remembered-set|" + (key or "%s|%s" % (rule, subject)), config)
+
+    def ok(self, rule, subject, detail="", where="", config=None):
+        return self._c.ok("C01.remembered-set", "[%s] %s" % (rule, subject), detail, where, config)
+
+    def floor(self, rule, n, floor, what):
+        return self._c.floor("C01.remembered-set", n, floor, "%s: %s" % (rule, what))
+
+    def __getattr__(self, name):
+        return getattr(self._c, name)
+
+
 def run(ctx, F):
+    # ---- remembered-set (the C05 rule set, judged here as a necessary condition of graph preservation in generational plans)
+    from . import C05 as _c05
+    _c05.run(_RemsetView(ctx), F)
     # ---- slot-update
     ps = F.fn(CL + "ProcessSlots::process_slots")
     ld = [c for c in live_calls(ps) if c.q == "vm::slot::Slot::load"]
